@@ -179,4 +179,31 @@ theorem bp_sync_time_unit_src : bp_sync_time_unit =
 data was applied (`Op.syncNS`). -/
 theorem refresh_conds_src : refresh_conds = "!isSuccess | err != nil | isFullSync | err != nil" := by decide
 
+/-! The binary form of addresses (`Addr.marshal` / `Addr.unmarshal` of `Model/ProfileCache.lean`): of all
+the conversions `netip` offers, the cache writes `MarshalBinary` (the only one that keeps the zone in
+bytes) and reads `UnmarshalBinary`; `backendpb` reads the wire with the same decoder. -/
+
+/-- `ipToBytes` is `netip.Addr.MarshalBinary` (`Addr.marshal`), not `AsSlice` / `As16` / `Unmap`… -/
+theorem cache_ip_encoder_src : cache_ip_encoder = "MarshalBinary" := by decide
+
+theorem cache_ips_encoder_src : cache_ips_encoder = "ipToBytes" := by decide
+
+/-- `devicesToProtobuf`: linked IP through `ipToBytes`, dedicated IPs through `ipsToByteSlices`. -/
+theorem cache_device_ip_encoders_src : cache_device_ip_encoders = "ipToBytes,ipsToByteSlices" := by decide
+
+/-- `(*Device).toInternal`: `UnmarshalBinary` and `ByteSlicesToIPs`, nothing that normalises. -/
+theorem cache_device_ip_decoders_src : cache_device_ip_decoders = "UnmarshalBinary,ByteSlicesToIPs" := by decide
+
+theorem cache_custom_ip_encoders_src : cache_custom_ip_encoders = "ipsToByteSlices,ipsToByteSlices" := by decide
+
+theorem cache_custom_ip_decoders_src : cache_custom_ip_decoders = "ByteSlicesToIPs,ByteSlicesToIPs" := by decide
+
+/-- `agdprotobuf.ByteSlicesToIPs` is `UnmarshalBinary` per element (`addrsFromPb`). -/
+theorem byteslices_decoder_src : byteslices_decoder = "UnmarshalBinary" := by decide
+
+/-- `backendpb.(*DeviceSettings).toInternal` reads the linked IP with `UnmarshalBinary` (`FromWire`). -/
+theorem backend_linked_ip_decoder_src : backend_linked_ip_decoder = "UnmarshalBinary" := by decide
+
+theorem backend_dedicated_ip_decoder_src : backend_dedicated_ip_decoder = "ByteSlicesToIPs" := by decide
+
 end Agd.Tie.C14
